@@ -226,11 +226,15 @@ def maxDist (N : Nat) (dist : Nat → Nat → K) : K :=
   (List.range N).foldl (fun m i =>
     ((List.range N).filter (fun j => i < j)).foldl (fun m j => if m < dist i j then dist i j else m) m) 0
 
-/-- `alpha = 1.0 / max * sqrt(2.0)` in the global strategy; the factor `1` of `Rt.fill(1)` in the local one -/
-def alphaOf (global : Bool) (N : Nat) (dist : Nat → Nat → K) (sqrtO : K → K) : Except Err K :=
+/-- `alpha` in the global strategy; the factor `1` of `Rt.fill(1)` in the local one.
+    `zeroGuard = false`: `alpha = 1.0 / max * sqrt(2.0)` — a division by zero (`inf`, then `inf * 0 = nan` everywhere)
+    when all input distances vanish, modelled as `Err.divzero`;
+    `zeroGuard = true` : `alpha = max > 0.0 ? 1.0 / max * sqrt(2.0) : 0.0` (repair F-SPE-ZERODIST).
+    Which one the working tree has is regenerated into `Gen/SpeVariant.lean`. -/
+def alphaOf (zeroGuard global : Bool) (N : Nat) (dist : Nat → Nat → K) (sqrtO : K → K) : Except Err K :=
   if global then
     let m := maxDist N dist
-    if m = 0 then .error .divzero else .ok (1 / m * sqrtO ((2 : Nat) : K))
+    if m = 0 then (if zeroGuard then .ok 0 else .error .divzero) else .ok (1 / m * sqrtO ((2 : Nat) : K))
   else .ok 1
 
 /-- `D[j] = (Y.col(*ind1) - Y.col(*ind2)).norm()`, `Rt[j] = alpha * distance(ind1, ind2)`,
@@ -278,6 +282,7 @@ structure Input (K : Type) where
   N : Nat
   d : Nat
   inPlace : Bool                   -- shape of the local strategy in the working tree (`Gen.spePartnersInPlace`)
+  zeroGuard : Bool                 -- `alpha` guarded against a vanishing maximum distance (`Gen.speAlphaZeroGuard`)
   global : Bool
   nb : List (List Nat)
   nupReq : Nat
@@ -318,7 +323,7 @@ def run (inp : Input K) : Except Err (State K) :=
   | .error e => .error e
   | .ok k =>
     let nup := clampUpdates inp.N inp.nupReq
-    match alphaOf inp.global inp.N inp.dist inp.sqrtO with
+    match alphaOf inp.zeroGuard inp.global inp.N inp.dist inp.sqrtO with
     | .error e => .error e
     | .ok alpha =>
       let maxIt := maxIter inp.N inp.maxIterReq inp.global inp.fl004
